@@ -33,6 +33,7 @@ type cbLog struct {
 	ninit     int
 	initAt    int // number of non-init callbacks (markers included) seen before the first init
 	total     int
+	nilObjs   int
 	overlap   string
 	afterDone string
 	markSeen  int
@@ -92,7 +93,12 @@ func (c *cbLog) handler() kcache.Handler {
 			c.mu.Lock()
 			defer c.mu.Unlock()
 			c.total++
-			if o != nil && o.GetNamespace() == markerNS {
+			if o == nil {
+				// a typed monitor handed an object of another type calls back with nil: neither a crash nor a wrong object
+				c.nilObjs++
+				return
+			}
+			if o.GetNamespace() == markerNS {
 				c.sawMarker(objVersion(o))
 				return
 			}
@@ -185,7 +191,13 @@ func (c *cbLog) waitMark(rv int, bound time.Duration) bool {
 // attachMonitor creates a monitor node below publisher node p.
 func (w *world) attachMonitor(p *node) *node {
 	n := &node{kind: "mon", parent: p, filt: -1, cb: newCbLog()}
-	m, err := kcache.NewMonitor(p.publisher(), n.cb.handler())
+	var m kcache.Monitor
+	var err error
+	if w.cfg.typed != "" {
+		m, err = typedPkgs[w.cfg.typed].monitor(p.publisher(), n.cb.handler())
+	} else {
+		m, err = kcache.NewMonitor(p.publisher(), n.cb.handler())
+	}
 	if err != nil {
 		w.fail("NewMonitor on live publisher %s failed: %v", p.path(), err)
 	}
